@@ -49,15 +49,20 @@ def stage(conf_dir: str | os.PathLike | None = None, import_spil: bool = True) -
     _state["owner_pid"] = os.getpid()
     atexit.register(_cleanup)
 
-    conf_src = Path(conf_dir or os.environ.get("SPIL_VERIF_CONF") or (REPO / "spil_hamlet_conf"))
-    conf_dst = scratch / "conf"
-    conf_dst.mkdir()
-    for item in sorted(conf_src.iterdir()):
-        if item.is_file() and item.suffix == ".py":
-            shutil.copy2(item, conf_dst / item.name)
-        elif item.is_dir() and item.name.endswith("_plugins"):
-            shutil.copytree(item, conf_dst / item.name,
-                            ignore=shutil.ignore_patterns("__pycache__"))
+    shared = os.environ.get("SPIL_VERIF_SHARED_CONF")
+    if shared:
+        # a helper process that must see the SAME trees as its parent worker: use its staged copy as it is
+        conf_dst = Path(shared)
+    else:
+        conf_src = Path(conf_dir or os.environ.get("SPIL_VERIF_CONF") or (REPO / "spil_hamlet_conf"))
+        conf_dst = scratch / "conf"
+        conf_dst.mkdir()
+        for item in sorted(conf_src.iterdir()):
+            if item.is_file() and item.suffix == ".py":
+                shutil.copy2(item, conf_dst / item.name)
+            elif item.is_dir() and item.name.endswith("_plugins"):
+                shutil.copytree(item, conf_dst / item.name,
+                                ignore=shutil.ignore_patterns("__pycache__"))
     _state["conf"] = conf_dst
 
     home = scratch / "home"
